@@ -101,8 +101,8 @@ func main() {
 				mains = append(mains, dir)
 				extra := filepath.Join(dir, "zz_sim_main.go")
 				edst := filepath.Join(*out, "src", filepath.Dir(rel), "zz_sim_main.go")
-				src := fmt.Sprintf("package %s\n\nimport %s %q\n\nvar simFlags = %s.NewFlagSet(%q)\n\n// Main runs the program's main function.\nfunc Main() { main() }\n",
-					mainPkgName(dir), simName, simPath, simName, prog)
+				src := fmt.Sprintf("package %s\n\nimport %s %q\n\nvar simFlags = %s.NewFlagSet(%q)\n\n// Main runs the program's main function; returning from main ends the process.\nfunc Main() {\n\tmain()\n\t%s.Exit(0)\n}\n",
+					mainPkgName(dir), simName, simPath, simName, prog, simName)
 				if err := os.WriteFile(edst, []byte(src), 0o644); err != nil {
 					return err
 				}
